@@ -223,6 +223,10 @@ pub trait World: 'static {
     fn sweep_case(_i: u64) -> Option<Self::Case> {
         None
     }
+    /// names of the sweep cells (site / size / callback index), for the evidence file
+    fn sweep_names() -> Vec<String> {
+        Vec::new()
+    }
 }
 
 /// Sub-lists of a plan for delta debugging: drop chunks of decreasing size.
